@@ -13,5 +13,6 @@ CONSTANTS
   PreRO <- NoPreRO
   FrontKind = "plain"
   KeyShards <- NoKeyShards
+  FaultBudget = 0
 POSTCONDITION Accepted
 CHECK_DEADLOCK FALSE
